@@ -133,6 +133,18 @@ Theorem C10_full_simulation : forall I g m,
 Proof. exact simulation. Qed.
 Print Assumptions C10_full_simulation.
 
+(* the same as a refinement: whatever smeta the harness abstracts the caller's object to (any interning), the reduced and the full
+   pipeline fail together with the same exception, or their results are again related *)
+Theorem C10_full_simulation_refines : forall g m s,
+  refines m s -> md_after_ok m = true -> dict_keys_ok m = true -> coords_exact g m = true ->
+  match final_metadata g s, stored_md g m with
+  | Ok s', Ok m' => refines m' s'
+  | Err e, Err e' => e = e'
+  | _, _ => False
+  end.
+Proof. exact simulation_refines. Qed.
+Print Assumptions C10_full_simulation_refines.
+
 (* exactly one entry per stored property; each entry is the caller's entry with dtype / varlength replaced by those of
    the written data and identifier, unit, name, description KEPT, or else a fresh entry without them *)
 Theorem C10_full_props : forall g m m' n e,
